@@ -110,5 +110,6 @@ package highlight
 //@   results styled tips
 //@   exit [cache-hit-highlights-nothing] old(hl.cache.code) == code ==> ncallsof("highlight") == 0 && styled === old(hl.cache.styledCode)
 //@   exit [cache-miss-highlights-that-code-once] old(hl.cache.code) != code ==> ncallsof("highlight") == 1 && (forall k int :: 0 <= k && k < ncalls && callis(k, "highlight") ==> callarg(k) === code && styled === callres(k).(ui.Text))
-//@   exit [cache-records-the-result-under-that-code] old(hl.cache.code) != code ==> hl.cache.code === code && hl.cache.styledCode === styled
+//@   exit [cache-records-that-code] ncallsof("highlight") == 1 ==> hl.cache.code === code
+//@   exit [cache-records-the-result] ncallsof("highlight") == 1 ==> hl.cache.styledCode === styled
 //@   exit [lock-released] ncallsof("sync.Mutex.Lock") == ncallsof("sync.Mutex.Unlock")
